@@ -197,7 +197,8 @@ def Presents (p : Parts) : Call → Prop
   | .truncated integer fraction e =>
     natOfDigits (integer ++ fraction) = litN p ∧ e - fraction.length = litE p ∧
     IsDigits integer ∧ IsDigits fraction ∧ u64Max < litN p ∧
-    (∀ d r, integer = d :: r → d ≠ 0x30) ∧ -(2 ^ 31 : Int) < e ∧ e < 2 ^ 31 ∧ ExpFits p
+    (∀ d r, integer = d :: r → d ≠ 0x30) ∧ -(2 ^ 31 : Int) < e ∧ e < 2 ^ 31 ∧ ExpFits p ∧
+    integer.length + fraction.length ≤ (p.int ++ p.frac.getD []).length + 20
 
 theorem negClass {α : Type} (A : α) (B : Int → α) (n : Nat) (h : n < 2 ^ 64) :
     (let asI64 : Int := if n ≥ 2 ^ 63 then (n : Int) - 2 ^ 64 else n
@@ -235,17 +236,20 @@ theorem satI32_id (x : Int) (h1 : -2147483648 ≤ x) (h2 : x ≤ 2147483647) : s
 /-- the common tail of the long path: `parse_long_exponent` / `f64_long_from_parts` on a scratch buffer that
     holds the literal's digits, split so that the fraction has as many digits as the literal's -/
 theorem long_presents (p : Parts) (wf : WF p) (scratch : Bytes) (ie : Nat)
-    (hN : natOfDigits scratch = litN p) (_hie : ie ≤ scratch.length)
+    (hN : natOfDigits scratch = litN p) (hie : ie ≤ scratch.length)
     (hF : scratch.length - ie = (p.frac.getD []).length) (hd : IsDigits scratch) (hbig : u64Max < litN p)
-    (hhead : ∀ d r, scratch.take ie = d :: r → d ≠ 0x30) :
+    (hhead : ∀ d r, scratch.take ie = d :: r → d ≠ 0x30)
+    (hsl : scratch.length ≤ (p.int ++ p.frac.getD []).length + 20) :
     Presents p (match p.exp with
       | some (en, eds) => parseLongExponent scratch ie en eds
       | none => f64LongFromParts scratch ie 0) := by
   have hsplit : natOfDigits (scratch.take ie ++ scratch.drop ie) = litN p := by rw [List.take_append_drop]; exact hN
   have hlen : (scratch.drop ie).length = (p.frac.getD []).length := by rw [List.length_drop]; exact hF
+  have hlens : (scratch.take ie).length + (scratch.drop ie).length ≤ (p.int ++ p.frac.getD []).length + 20 := by
+    rw [List.length_take, List.length_drop]; omega
   cases hexp : p.exp with
   | none =>
-    refine ⟨hsplit, ?_, isDigits_take hd _, isDigits_drop hd _, hbig, hhead, by norm_num, by norm_num, ?_⟩
+    refine ⟨hsplit, ?_, isDigits_take hd _, isDigits_drop hd _, hbig, hhead, by norm_num, by norm_num, ?_, hlens⟩
     · simp [litE, litExp, hexp, hlen]
     · intro en eds h; rw [hexp] at h; cases h
   | some e =>
@@ -266,7 +270,7 @@ theorem long_presents (p : Parts) (wf : WF p) (scratch : Bytes) (ie : Nat)
       have hfit : ExpFits p := by
         intro en' eds' h; rw [hexp] at h; cases h; exact h2
       simp only [i32Max] at h3
-      refine ⟨hsplit, ?_, isDigits_take hd _, isDigits_drop hd _, hbig, hhead, ?_, ?_, hfit⟩
+      refine ⟨hsplit, ?_, isDigits_take hd _, isDigits_drop hd _, hbig, hhead, ?_, ?_, hfit, hlens⟩
       · simp only [litE, litExp, hexp, hlen]
         cases en <;> simp
       · cases en <;> simp <;> omega
@@ -337,18 +341,22 @@ theorem parseDecimalGo_presents (p : Parts) (wf : WF p) (fds : Bytes) (hfr : p.f
           rw [natOfDigits_eq_val, val_cons, val_eq]; simp
         rw [h10, h3]
         nlinarith [Nat.zero_le (natOfDigits cs), Nat.zero_le (dig c), Nat.zero_le sig]
-      have key : ∀ zeros : Bytes, IsDigits zeros → natOfDigits zeros = 0 →
+      have key : ∀ zeros : Bytes, IsDigits zeros → natOfDigits zeros = 0 → zeros.length ≤ consumed.length →
           consumed.length ≤ (zeros ++ itoa sig).length →
           (∀ d r, (zeros ++ itoa sig).take ((zeros ++ itoa sig).length - consumed.length) = d :: r → d ≠ 0x30) →
           Presents p (match p.exp with
             | some (en, eds) => parseLongExponent (zeros ++ itoa sig ++ c :: cs) ((zeros ++ itoa sig).length - consumed.length) en eds
             | none => f64LongFromParts (zeros ++ itoa sig ++ c :: cs) ((zeros ++ itoa sig).length - consumed.length) 0) := by
-        intro zeros hzd hzv hge hhead
+        intro zeros hzd hzv hzl hge hhead
         refine long_presents p wf ((zeros ++ itoa sig) ++ c :: cs) ((zeros ++ itoa sig).length - consumed.length)
           (by rw [natOfDigits_append, natOfDigits_append, hzv, i1, hlitN]; simp)
           (by simp only [List.length_append]; omega)
           (by rw [hfr, Option.getD_some, hsplit]; simp only [List.length_append, List.length_cons] at hge ⊢; omega)
-          (isDigits_append (isDigits_append hzd i2) hcd) hbig ?_
+          (isDigits_append (isDigits_append hzd i2) hcd) hbig ?_ ?_
+        rotate_left
+        · rw [hfr, Option.getD_some, hsplit]
+          simp only [List.length_append, List.length_cons] at hzl ⊢
+          omega
         intro d r htake
         rw [List.take_append_of_le_length (by omega)] at htake
         exact hhead d r htake
@@ -356,6 +364,7 @@ theorem parseDecimalGo_presents (p : Parts) (wf : WF p) (fds : Bytes) (hfr : p.f
       · rw [if_pos hcase]
         have := key (List.replicate (consumed.length - ((itoa sig).length + 1) + 1) 0x30)
           (isDigits_replicate_zero _) (natOfDigits_replicate_zero _)
+          (by simp only [List.length_replicate]; omega)
           (by simp only [List.length_append, List.length_replicate]; omega)
           (by
             intro d r htake
@@ -366,7 +375,8 @@ theorem parseDecimalGo_presents (p : Parts) (wf : WF p) (fds : Bytes) (hfr : p.f
         | none => simpa [hexp] using this
         | some e => obtain ⟨en, eds⟩ := e; simpa [hexp] using this
       · rw [if_neg hcase]
-        have := key [] (by intro c hc; cases hc) rfl (by simp only [List.nil_append]; omega)
+        have := key [] (by intro c hc; cases hc) rfl (by simp)
+          (by simp only [List.nil_append]; omega)
           (by
             intro d r htake
             rw [List.nil_append] at htake
@@ -465,6 +475,7 @@ theorem deCall_presents (p : Parts) (wf : WF p) : Presents p (deCall p) := by
             have hp : 1 ≤ 10 ^ fds.length := Nat.one_le_pow _ _ (by decide)
             nlinarith [Nat.zero_le (natOfDigits fds)])
         (by intro d r h; rw [List.take_left'] at h; exact hheadS d r h; rfl)
+        (by rw [hfr, Option.getD_some, hint]; simp only [List.length_append, List.length_cons]; omega)
       cases hexp : p.exp with
       | none => simpa [hexp] using this
       | some e => obtain ⟨en, eds⟩ := e; simpa [hexp] using this
@@ -476,6 +487,7 @@ theorem deCall_presents (p : Parts) (wf : WF p) : Presents p (deCall p) := by
         (isDigits_append i2 hrd)
         (by rw [litN, hfr]; simpa using hbig0)
         (by intro d r h; rw [List.take_length] at h; exact hheadS d r h)
+        (by rw [hfr, hint]; simp only [List.length_append, List.length_cons, Option.getD_none, List.length_nil]; omega)
       cases hexp : p.exp with
       | none => simpa [hexp] using this
       | some e => obtain ⟨en, eds⟩ := e; simpa [hexp] using this
